@@ -43,12 +43,12 @@ ASSUMPTIONS = [
 ]
 REQUIRED_MONITORS = {
     "quick": {
-        "dispatch_equals_sent": 500000, "exhaustive_chunkings": 500000, "outgoing_bytes": 3000, "csm_gate": 50000, "abort_and_close": 100000,
+        "dispatch_equals_sent": 500000, "exhaustive_chunkings": 500000, "outgoing_bytes": 3000, "csm_gate": 50000, "abort_and_close": 100000, "abort_under_write_backlog": 20000,
         "oversize_abort": 8, "elective_sig_option_ignored": 10000, "critical_sig_option_abort": 10000, "ping_pong": 20000, "empty_ignored": 15000,
         "release_abort_fail_pending": 1000, "e2e_server": 1000, "e2e_outgoing_request": 1000, "no_escape": 500000, "own_csm": 2,
     },
     "thorough": {
-        "dispatch_equals_sent": 10000000, "exhaustive_chunkings": 10000000, "outgoing_bytes": 300000, "csm_gate": 1000000, "abort_and_close": 3000000,
+        "dispatch_equals_sent": 10000000, "exhaustive_chunkings": 10000000, "outgoing_bytes": 300000, "csm_gate": 1000000, "abort_and_close": 3000000, "abort_under_write_backlog": 600000,
         "oversize_abort": 300, "elective_sig_option_ignored": 300000, "critical_sig_option_abort": 300000, "ping_pong": 1000000, "empty_ignored": 1000000,
         "release_abort_fail_pending": 100000, "e2e_server": 100000, "e2e_outgoing_request": 100000, "no_escape": 10000000, "own_csm": 2,
     },
@@ -83,9 +83,17 @@ def plan(tier, seed):
 
 
 class FakeTransport:
-    """What a Protocol sees of asyncio's selector socket transport (empty write buffer)."""
+    """What a Protocol sees of asyncio's selector socket transport. Every third transport models a peer that stops
+    reading after the first write (the CSM): what is written afterwards stays in the user-space write buffer, which
+    close() flushes before closing and abort() throws away (the two differ in nothing else)."""
+
+    created = 0
 
     def __init__(self, loop, proto, peername, sockname):
+        FakeTransport.created += 1
+        self.stalls = FakeTransport.created % 3 == 0
+        self.stall_at = None  # len(out) from which on bytes are only buffered
+        self.discarded = 0
         self.loop = loop
         self.proto = proto
         self.out = bytearray()  # bytes that would have reached the wire
@@ -104,6 +112,8 @@ class FakeTransport:
             self.late.append(bytes(data))
             return
         self.out += data
+        if self.stalls and self.stall_at is None:
+            self.stall_at = len(self.out)
 
     def writelines(self, lines):
         self.write(b"".join(lines))
@@ -117,6 +127,9 @@ class FakeTransport:
         self.loop.call_soon(self._call_connection_lost, None)
 
     def abort(self):
+        if self.stall_at is not None and not self.closing:
+            self.discarded = len(self.out) - self.stall_at
+            del self.out[self.stall_at :]
         self.close()
 
     def _call_connection_lost(self, exc):
@@ -153,7 +166,7 @@ class FakeTransport:
         return not self.closing
 
     def get_write_buffer_size(self):
-        return 0
+        return 0 if self.stall_at is None else len(self.out) - self.stall_at
 
     def get_write_buffer_limits(self):
         return (16384, 65536)
@@ -611,6 +624,8 @@ def judge(env, rig, items, exp, case, chunks, section):
                 stray.append(s)
         if exp.stop == "abort":
             rep.monitor("abort_and_close")
+            if t.stall_at is not None:
+                rep.monitor("abort_under_write_backlog")
             if exp.cls.startswith("sig-critical"):
                 rep.monitor("critical_sig_option_abort")
             if exp.cls.startswith("oversize"):
